@@ -19,7 +19,7 @@ SPEC_FORMS = ('old', 'forall', 'exists', 'implies', 'ite', 'pow2', 'typeis', 'is
               'U', 'app', 'splice', 'Bst', 'appb', 'Bin', 'appbin', 'is_binstr', 'binval',
               'prefix_same', 'outside_same', 'chars_eq', 'allspaces', 'allchar', 'is_bool', 'oval',
               'isdigits', 'str2int', 'same_dict', 'dval', 'gh', 'ghat', 'same_ghosts', 'npow2', 'asref', 'allzero_bytes', 'chars', 'entry', 'is_ref', 'refof', 'aslist_vv',
-              'at_exit', 'has_exit', 'is_slice', 'slice_part', 'ndistinct', 'lc_idx', 'lc_inv', 'aslist_v', 'lc_map', 'at', 'aslist_i', 'uprefix_same')
+              'at_exit', 'has_exit', 'is_slice', 'slice_part', 'ndistinct', 'lc_idx', 'lc_inv', 'aslist_v', 'lc_map', 'at', 'aslist_i', 'uprefix_same', 'newer')
 
 
 EXTRA_SPEC_FORMS = {}
@@ -429,6 +429,13 @@ def spec_form(eng, e, st, ctx):
         if ctx.old_state is None:
             raise Unsupported('fresh() outside postcondition')
         return SV(BOOL, z3.And(x.z >= ctx.old_state.alloc + ctx.old_state.nalloc, x.z != 0))
+    if name == 'newer':
+        # newer(x): x was allocated after the enclosing loop was entered (loop invariants; outside a loop: after function entry)
+        x = ev1(a[0])
+        base = getattr(ctx, 'loop_entry_state', None) or ctx.old_state
+        if base is None:
+            raise Unsupported('newer() outside a loop invariant / postcondition')
+        return SV(BOOL, z3.And(x.z >= base.alloc + base.nalloc, x.z != 0))
     if name == 'unchanged':
         # unchanged(obj): every declared field of obj has its old value (objects only)
         x = ev1(a[0])
